@@ -100,8 +100,9 @@ def floorLog2 (q : Rat) : Int :=
     | fuel + 1 => if pow2 (e + 1) ≤ q then go fuel (e + 1) else e
   go 3 lo
 
-/-- exponent rule of `pack2d` in exact arithmetic: `floor(log2 RMAX) + 1`, and 1 for RMAX = 0 -/
-def nexpOf (r : Rat) : Int := if r = 0 then 1 else floorLog2 r + 1
+/-- exponent rule of `pack2d` in exact arithmetic: `floor(log2 RMAX) + 1`, and 1 for RMAX = 0; never below -120, so that
+the scale `2^(7 - NEXP)` is at most `2^127`, a finite float32 (differences below `2^-121` are packed with exponent -120) -/
+def nexpOf (r : Rat) : Int := if r = 0 then 1 else max (floorLog2 r + 1) (-120)
 
 /-- exact power of two? (where the code's float32 logarithm may land one below) -/
 def isPow2 (q : Rat) : Bool := q > 0 && pow2 (floorLog2 q) == q
